@@ -963,12 +963,38 @@ func (p *pkgCtx) accBefore(n ast.Node, text string) {
 // ------------------------------------------------------------------ trace mode (C08)
 
 func (p *pkgCtx) traceMode() {
-	site := 0
-	newSite := func(n ast.Node, kind string) string {
-		site++
-		p.rep.TraceSites++
-		return fmt.Sprintf("%q", fmt.Sprintf("%s/%s#%d", p.rep.Package, p.loc(n), site))
+	type siteInfo struct {
+		ID   uint32 `json:"id"`
+		Kind string `json:"kind"`
+		Loc  string `json:"loc"`
+		Func string `json:"func"`
 	}
+	var sitesOut []siteInfo
+	blockID := map[ast.Node]uint32{}
+	newSite := func(n ast.Node, kind string) string {
+		p.rep.TraceSites++
+		fn := ""
+		if fd := p.enclosingFunc(n); fd != nil {
+			fn = fd.Name.Name
+			if fd.Recv != nil && len(fd.Recv.List) > 0 {
+				fn = strings.TrimPrefix(p.text(fd.Recv.List[0].Type), "*") + "." + fn
+			}
+		}
+		key := fmt.Sprintf("%s/%s#%d", p.rep.Package, p.loc(n), p.rep.TraceSites)
+		var id uint32 = 2166136261
+		for i := 0; i < len(key); i++ {
+			id ^= uint32(key[i])
+			id *= 16777619
+		}
+		sitesOut = append(sitesOut, siteInfo{id, kind, p.loc(n), p.rep.Package + ":" + fn})
+		blockID[n] = id
+		return fmt.Sprintf("%d", id)
+	}
+	defer func() {
+		b, _ := json.Marshal(sitesOut)
+		dir := filepath.Dir(p.edits[p.files[0]].path)
+		os.WriteFile(filepath.Join(dir, ".vx_trace_sites.json"), b, 0o644)
+	}()
 	for _, f := range p.files {
 		usedHere := false
 		ast.Inspect(f, func(n ast.Node) bool {
@@ -976,10 +1002,12 @@ func (p *pkgCtx) traceMode() {
 			case *ast.FuncDecl:
 				if x.Body != nil {
 					p.insert(x.Body.Lbrace+1, fmt.Sprintf(" vxtrace.B(%s); ", newSite(x, "func")))
+					blockID[x.Body] = blockID[x]
 					usedHere = true
 				}
 			case *ast.FuncLit:
 				p.insert(x.Body.Lbrace+1, fmt.Sprintf(" vxtrace.B(%s); ", newSite(x, "funclit")))
+				blockID[x.Body] = blockID[x]
 				usedHere = true
 			case *ast.IfStmt:
 				p.insert(x.Body.Lbrace+1, fmt.Sprintf(" vxtrace.B(%s); ", newSite(x.Body, "then")))
@@ -1017,15 +1045,23 @@ func (p *pkgCtx) traceMode() {
 					return true
 				}
 				xt, ok := p.info.Types[x.X]
-				if !ok {
+				if !ok || xt.IsType() {
 					return true
 				}
-				switch xt.Type.Underlying().(type) {
-				case *types.Slice, *types.Array, *types.Pointer, *types.Basic:
+				switch u := xt.Type.Underlying().(type) {
+				case *types.Slice, *types.Array:
+				case *types.Pointer:
+					if _, isArr := u.Elem().Underlying().(*types.Array); !isArr {
+						return true
+					}
+				case *types.Basic:
+					if u.Info()&types.IsString == 0 {
+						return true
+					}
 				default:
-					return true // maps, generics
+					return true // maps, generic instantiations
 				}
-				if _, isInt := tv.Type.Underlying().(*types.Basic); !isInt {
+				if bt, isBasic := tv.Type.Underlying().(*types.Basic); !isBasic || bt.Info()&types.IsInteger == 0 {
 					return true
 				}
 				p.insert(x.Index.Pos(), fmt.Sprintf("vxtrace.I(%s, (", newSite(x.Index, "index")))
@@ -1043,6 +1079,9 @@ func (p *pkgCtx) traceMode() {
 					if !ok || tv.Value != nil {
 						continue
 					}
+					if bt, isBasic := tv.Type.Underlying().(*types.Basic); !isBasic || bt.Info()&types.IsInteger == 0 {
+						continue
+					}
 					p.insert(b.Pos(), fmt.Sprintf("vxtrace.I(%s, (", newSite(b, "slicebound")))
 					p.insert(b.End(), "))")
 					usedHere = true
@@ -1055,8 +1094,14 @@ func (p *pkgCtx) traceMode() {
 			p.insert(f.End(), "\nvar _ = vxtrace.B\n")
 		}
 	}
-	// callee whitelist facts: calls into packages outside the module, per function
-	callees := map[string]bool{}
+	// external callees, attributed to the innermost instrumented block that contains the call
+	type extCall struct {
+		Site   uint32 `json:"site"`
+		Func   string `json:"func"`
+		Callee string `json:"callee"`
+		Loc    string `json:"loc"`
+	}
+	var exts []extCall
 	for _, f := range p.files {
 		ast.Inspect(f, func(n ast.Node) bool {
 			call, ok := n.(*ast.CallExpr)
@@ -1070,17 +1115,32 @@ func (p *pkgCtx) traceMode() {
 			case *ast.SelectorExpr:
 				obj = p.info.Uses[fn.Sel]
 			}
-			if fobj, ok := obj.(*types.Func); ok && fobj.Pkg() != nil && !strings.HasPrefix(fobj.Pkg().Path(), "github.com/bilibili/smgo") {
-				fd := p.enclosingFunc(call)
-				if fd != nil {
-					callees[fd.Name.Name+" -> "+fobj.FullName()] = true
+			fobj, ok := obj.(*types.Func)
+			if !ok || fobj.Pkg() == nil || fobj.Pkg() == p.pkg || strings.HasPrefix(fobj.Pkg().Path(), "github.com/bilibili/smgo") {
+				return true
+			}
+			fd := p.enclosingFunc(call)
+			if fd == nil {
+				return true
+			}
+			fn := fd.Name.Name
+			if fd.Recv != nil && len(fd.Recv.List) > 0 {
+				fn = strings.TrimPrefix(p.text(fd.Recv.List[0].Type), "*") + "." + fn
+			}
+			var site uint32
+			for cur := ast.Node(call); cur != nil; cur = p.parent[cur] {
+				if id, ok := blockID[cur]; ok {
+					site = id
+					break
 				}
 			}
+			exts = append(exts, extCall{site, p.rep.Package + ":" + fn, fobj.FullName(), p.loc(call)})
 			return true
 		})
 	}
-	for k := range callees {
-		p.rep.Unsupported = append(p.rep.Unsupported, "extcall: "+k)
+	if len(p.files) > 0 {
+		b, _ := json.Marshal(exts)
+		os.WriteFile(filepath.Join(filepath.Dir(p.edits[p.files[0]].path), ".vx_trace_ext.json"), b, 0o644)
 	}
 	sort.Strings(p.rep.Unsupported)
 }
